@@ -207,6 +207,9 @@ pub struct CodegenContext {
 
     /// The value every definition of a variable gave it in the previous pass
     variable_definitions: HashMap<(SymbolIndex, Span), SymbolData>,
+
+    /// Every symbol that was defined in this or an earlier pass
+    known_definitions: HashSet<IdentifierPath>,
 }
 
 #[derive(Debug, PartialEq, Eq, Hash)]
@@ -257,6 +260,7 @@ impl CodegenContext {
             import_stack: vec![],
             macro_depth: 0,
             variable_definitions: HashMap::new(),
+            known_definitions: HashSet::new(),
         }
     }
 
@@ -438,6 +442,12 @@ impl CodegenContext {
                 // must not inherit what is known about the one that had its index before
                 self.analysis
                     .remove_definition(&DefinitionType::Symbol(nx));
+                // A definition that is seen for the first time (and not just the 'index' of a loop coming back) was not
+                // there yet for anything that used its name earlier in this pass: that found another symbol further out,
+                // or none at all
+                if self.known_definitions.insert(path.clone()) {
+                    maybe_require_new_pass = true;
+                }
                 nx
             }
         };
